@@ -1,3 +1,4 @@
+import math
 import random
 from typing import Any, List, Sequence, TypeVar, cast
 
@@ -24,8 +25,8 @@ class Random:
             return random.uniform(start, end)
 
         scale_factor = 10 ** precision
-        left_number = int(start * scale_factor)
-        right_number = int(end * scale_factor)
+        left_number = math.ceil(start * scale_factor)
+        right_number = math.floor(end * scale_factor)
 
         result = cast(float, self.random_int(left_number, right_number) / scale_factor)
         return round(result, precision)
